@@ -782,6 +782,15 @@ def run_case(ctx):
             elif st != "no":
                 mon.note(f"u3-family:{st}")
         before = [_op_sig(o) for o in circuit.operations]
+        if ctx.index % 3 == 1 and not symbolic:
+            # the circuit has been USED before it is decomposed (its gates' matrices were asked for - a simulation, a
+            # to_unitary): whatever a gate object remembers of that must not travel into the gates the rule builds from it
+            for o in circuit.operations:
+                try:
+                    getattr(o, "gate", None) is not None and o.gate.matrix
+                except Exception:
+                    pass
+            mon.note(f"{cls}:gate-matrices-evaluated-before-decomposition")
         res = decompose_orquestra_circuit(circuit, rules)
         ctx.check("source-circuit-untouched", [_op_sig(o) for o in circuit.operations] == before,
                   lambda: f"the decomposed circuit's own operations changed: {_desc_circuit(circuit)}")
